@@ -118,9 +118,34 @@ class Terms:
             body = [_G().visit(_copy.deepcopy(b)) for b in st.body]
         else:
             raise Unknown(f'loop `for {norm(t)} in {norm(it)[:40]}` is not `for i, g in enumerate(...)`')
+        elem = 'guess'
+        gen = None
+        if isinstance(src, ast.Call) and isinstance(src.func, (ast.Name, ast.Attribute)):
+            r_ = self.prog.resolve(f.mod, src.func)
+            if r_ and r_[0] == 'func' and r_[1].mod.name == self.mod and any(isinstance(n_, ast.Yield) for n_ in ast.walk(r_[1].node)):
+                gen = r_[1]
+        if gen is not None:
+            # a generator of the module producing one item per guess: `for g in <its parameter>: yield expr(g)`
+            gl = [n_ for n_ in gen.node.body if isinstance(n_, ast.For)]
+            ys = [n_ for n_ in ast.walk(gen.node) if isinstance(n_, ast.Yield)]
+            if len(gl) != 1 or len(ys) != 1 or len(src.args) != 1 or src.keywords or len(gen.params) != 1 or norm(gl[0].iter) != gen.params[0] or not isinstance(gl[0].target, ast.Name) \
+                    or ys[0].value is None or not any(ys[0] is y_ for s_ in gl[0].body for y_ in ast.walk(s_)):
+                raise Unknown(f'generator {gen.name} is not `for g in guesses: yield f(g)`')
+            genv = {gen.params[0]: self.ev(src.args[0], env, f, depth)}
+            for s_ in gen.node.body:
+                if isinstance(s_, ast.Assign) and len(s_.targets) == 1 and isinstance(s_.targets[0], ast.Name):
+                    genv[s_.targets[0].id] = self.ev(s_.value, genv, gen, depth + 1)
+            genv[gl[0].target.id] = 'guess'
+            for s_ in gl[0].body:
+                if isinstance(s_, ast.Assign) and len(s_.targets) == 1 and isinstance(s_.targets[0], ast.Name):
+                    genv[s_.targets[0].id] = self.ev(s_.value, genv, gen, depth + 1)
+            elem = self.ev(ys[0].value, genv, gen, depth + 1)
+            src = src.args[0]
         fact = {'func': f, 'node': st, 'iter_order': self.order_kind(src, env, f, depth), 'iter_text': norm(src)}
+        if gen is None and fact['iter_order'] == 'unknown' and isinstance(src, ast.Call):
+            raise Unknown(f'what the loop over `{norm(src)[:40]}` yields per guess is not derivable')
         lenv = dict(env)
-        lenv[gv] = 'guess'
+        lenv[gv] = elem
         lenv[iv] = ('index',)
         target = None
         for b in body:
